@@ -267,6 +267,8 @@ type Row struct {
 	B    int   `json:"b"`            // batch within the producer
 	Key  []Val `json:"key"`          // the prefix columns
 	Want int   `json:"want"`         // what Repartition's function returns for the row
+	// what the second custom function of a pair program returns for the row
+	Want2 int `json:"want2,omitempty"`
 }
 
 // Desc describes one case; it is everything needed to re-run it.
@@ -293,6 +295,13 @@ type Desc struct {
 	Rows   []Row    `json:"ops,omitempty"` // named ops so that check.py's shrinker drops rows
 	Tag    string   `json:"tag,omitempty"` // finding signature of deliberately aimed cases
 	Prefix int      `json:"prefix,omitempty"`
+	// pair programs: ONE upstream slice value is a shuffle dependency of two
+	// consumers with the same shard count in one invocation,
+	// Cogroup(record(Pair[0](s)), record(Pair[1](s))); each of Pair is reshuffle |
+	// repartition (function Want) | repartition2 (function Want2). The case
+	// observes the operator Pair[Which]; Op is its kind.
+	Pair  []string `json:"pair,omitempty"`
+	Which int      `json:"which,omitempty"`
 }
 
 // Obs is what running a Desc observed.
@@ -470,12 +479,19 @@ func input(d *Desc, which int) bigslice.Slice {
 
 // record appends a writer recording the first nkey columns of s with the shard.
 func record(d *Desc, s bigslice.Slice, nkey int) bigslice.Slice {
+	return recordAs(d, s, nkey, recID(d, -1))
+}
+
+// recID is the recorder slot of a case: slot 0 for plain programs, 1+i for
+// operator i of a pair program.
+func recID(d *Desc, which int) int { return d.ID*4 + 1 + which }
+
+func recordAs(d *Desc, s bigslice.Slice, nkey int, id int) bigslice.Slice {
 	in := []reflect.Type{typeOfInt, typeOfInt, typeOfError}
 	for c := 0; c < s.NumOut(); c++ {
 		in = append(in, reflect.SliceOf(s.Out(c)))
 	}
 	ft := reflect.FuncOf(in, []reflect.Type{typeOfError}, false)
-	id := d.ID
 	types := append(append([]string(nil), d.Types...), "int") // the row number column follows the key columns
 	w := reflect.MakeFunc(ft, func(args []reflect.Value) []reflect.Value {
 		shard := int(args[0].Int())
@@ -496,8 +512,47 @@ func record(d *Desc, s bigslice.Slice, nkey int) bigslice.Slice {
 	return bigslice.WriterFunc(s, w.Interface())
 }
 
+// repartitionBy wraps s in a Repartition whose function returns want(row).
+func repartitionBy(d *Desc, s bigslice.Slice, want func(r *Row) int) bigslice.Slice {
+	in := []reflect.Type{typeOfInt}
+	for c := 0; c < s.NumOut(); c++ {
+		in = append(in, s.Out(c))
+	}
+	ft := reflect.FuncOf(in, []reflect.Type{typeOfInt}, false)
+	fn := reflect.MakeFunc(ft, func(args []reflect.Value) []reflect.Value {
+		ri := int(args[len(args)-1].Int()) // the row number column
+		return []reflect.Value{reflect.ValueOf(want(&d.Rows[ri]))}
+	})
+	return bigslice.Repartition(s, fn.Interface())
+}
+
+// buildPair: the same slice value s shuffled twice with equal shard counts, by
+// the default hash partitioner and/or custom functions; (shard, key) recorded
+// after each operator; Cogroup joins the two so that both are one invocation
+// and fixes the order in which they are compiled.
+func buildPair(d *Desc) bigslice.Slice {
+	s := input(d, 0)
+	var sides [2]bigslice.Slice
+	for i, op := range d.Pair {
+		switch op {
+		case "reshuffle":
+			sides[i] = recordAs(d, bigslice.Reshuffle(s), d.Prefix, recID(d, i))
+		case "repartition":
+			sides[i] = recordAs(d, repartitionBy(d, s, func(r *Row) int { return r.Want }), len(d.Types)+1, recID(d, i))
+		case "repartition2":
+			sides[i] = recordAs(d, repartitionBy(d, s, func(r *Row) int { return r.Want2 }), len(d.Types)+1, recID(d, i))
+		default:
+			panic("unknown pair op " + op)
+		}
+	}
+	return bigslice.Cogroup(sides[0], sides[1])
+}
+
 // build constructs the program of an e2e case.
 func build(d *Desc) bigslice.Slice {
+	if len(d.Pair) == 2 {
+		return buildPair(d)
+	}
 	switch d.Op {
 	case "reduce":
 		s := bigslice.Reduce(input(d, 0), func(a, b int) int { return a + b })
@@ -521,17 +576,8 @@ func build(d *Desc) bigslice.Slice {
 	case "reshard":
 		return record(d, bigslice.Reshard(input(d, 0), d.NOut), d.Prefix)
 	case "repartition":
-		in0 := input(d, 0)
-		in := []reflect.Type{typeOfInt}
-		for c := 0; c < in0.NumOut(); c++ {
-			in = append(in, in0.Out(c))
-		}
-		ft := reflect.FuncOf(in, []reflect.Type{typeOfInt}, false)
-		fn := reflect.MakeFunc(ft, func(args []reflect.Value) []reflect.Value {
-			ri := int(args[len(args)-1].Int()) // the row number column
-			return []reflect.Value{reflect.ValueOf(d.Rows[ri].Want)}
-		})
-		return record(d, bigslice.Repartition(in0, fn.Interface()), len(d.Types)+1)
+		s := repartitionBy(d, input(d, 0), func(r *Row) int { return r.Want })
+		return record(d, s, len(d.Types)+1)
 	}
 	panic("unknown op " + d.Op)
 }
@@ -583,8 +629,17 @@ func runE2E(d *Desc) (o Obs) {
 		panic(err)
 	}
 	js, _ := json.Marshal(d)
+	slot := recID(d, -1)
+	if len(d.Pair) == 2 {
+		slot = recID(d, d.Which)
+	}
+	clearRec := func() {
+		for w := -1; w < 2; w++ {
+			delete(rec, recID(d, w))
+		}
+	}
 	recMu.Lock()
-	delete(rec, d.ID)
+	clearRec()
 	recMu.Unlock()
 	done := make(chan error, 1)
 	go func() {
@@ -612,8 +667,8 @@ func runE2E(d *Desc) (o Obs) {
 		return o
 	}
 	recMu.Lock()
-	o.Outs = append([]Out(nil), rec[d.ID]...)
-	delete(rec, d.ID)
+	o.Outs = append([]Out(nil), rec[slot]...)
+	clearRec()
 	recMu.Unlock()
 	sort.SliceStable(o.Outs, func(i, j int) bool {
 		if o.Outs[i].Shard != o.Outs[j].Shard {
@@ -692,7 +747,11 @@ func term(d *Desc, o Obs, other *Obs) string {
 					if d.Op == "repartition" { // Repartition's function sees the whole row
 						k = append(append([]Val(nil), k...), Val{T: "int", U: uint64(ri)})
 					}
-					batches[r.B] = append(batches[r.B], vf.App("mkIn", keyCoq(k), vf.Z(int64(r.Want))))
+					want := r.Want
+					if len(d.Pair) == 2 && d.Pair[d.Which] == "repartition2" {
+						want = r.Want2
+					}
+					batches[r.B] = append(batches[r.B], vf.App("mkIn", keyCoq(k), vf.Z(int64(want))))
 				}
 				bs := make([]string, len(batches))
 				for i, b := range batches {
@@ -813,6 +872,40 @@ func genE2E(r *vf.Rand, id int, op, ex string, oob bool) Desc {
 	return d
 }
 
+// genPair: a program in which one slice value is shuffled twice with the same
+// shard count (see Desc.Pair). Few distinct keys and independent function values,
+// so that a producer wrongly shared between the two consumers shows: equal keys
+// with different function values, rows whose function value differs from their
+// hash shard and from the other function's value.
+func genPair(r *vf.Rand, id int, pair [2]string, which int, ex string) Desc {
+	d := Desc{Kind: "e2e", ID: id, Exec: ex, Pair: pair[:], Which: which}
+	d.Op = strings.TrimSuffix(pair[which], "2")
+	d.Types = e2eKeyTypes[r.Intn(len(e2eKeyTypes))]
+	d.Prefix = len(d.Types)
+	d.Chunk = []int{2, 5, 16, 128}[r.Intn(4)]
+	n := []int{2, 3, 4, 5, 8}[r.Intn(5)]
+	d.NIn = []int{n}
+	pool := make([][]Val, r.Range(2, 6))
+	for i := range pool {
+		for _, t := range d.Types {
+			pool[i] = append(pool[i], randVal(r, t, false))
+		}
+	}
+	nrows := r.Range(12, 40)
+	fill := make([]int, n)
+	batch := make([]int, n)
+	for i := 0; i < nrows; i++ {
+		p := r.Intn(n)
+		if fill[p] >= d.Chunk || (fill[p] > 0 && r.Chance(1, 4)) {
+			batch[p]++
+			fill[p] = 0
+		}
+		fill[p]++
+		d.Rows = append(d.Rows, Row{P: p, B: batch[p], Key: pool[r.Intn(len(pool))], Want: r.Intn(n), Want2: r.Intn(n)})
+	}
+	return d
+}
+
 // aimed cases for the two defects found while modelling (kept in the model; see
 // the final report): they carry their own signatures.
 func aimed(id *int, ex string) []Desc {
@@ -911,6 +1004,28 @@ func generate(opts vf.Opts) []Desc {
 			ds = append(ds, genE2E(root.Split(), next(), op, ex, k%3 == 2))
 		}
 	}
+	// --- one slice shuffled twice in one invocation (both compile orders, both executors)
+	pairOps := []string{"reshuffle", "repartition", "repartition2"}
+	npair := 1
+	if thorough {
+		npair = 6
+	}
+	npair *= opts.Scale
+	for k := 0; k < npair; k++ {
+		for _, a := range pairOps {
+			for _, b := range pairOps {
+				if a == b {
+					continue
+				}
+				for _, ex := range execs {
+					seed := root.Split().Uint64()
+					for which := 0; which < 2; which++ { // the same program, observed after either operator
+						ds = append(ds, genPair(vf.NewRand(seed), next(), [2]string{a, b}, which, ex))
+					}
+				}
+			}
+		}
+	}
 	for _, ex := range execs {
 		ds = append(ds, aimed(&id, ex)...)
 	}
@@ -957,12 +1072,18 @@ func kindOf(d *Desc) string {
 	case "range":
 		return "range/" + d.T
 	}
+	if len(d.Pair) == 2 {
+		return fmt.Sprintf("e2e/pair:%s+%s@%d/%s", d.Pair[0], d.Pair[1], d.Which, d.Exec)
+	}
 	return "e2e/" + d.Op + "/" + d.Exec
 }
 
 func sigOf(d *Desc) string {
 	if d.Tag != "" {
 		return d.Tag
+	}
+	if d.Kind == "e2e" && len(d.Pair) == 2 {
+		return "e2e-pair-" + d.Pair[0] + "+" + d.Pair[1]
 	}
 	if d.Kind == "e2e" {
 		return "e2e-" + d.Op
